@@ -114,7 +114,7 @@ def run_check(spec, prop, tier, seed, t0):
                                      broken="the translator could not regenerate the model from /repo's source"))
         violations.append((rp, "no-failing-input-found"))
     # ---- proof stage
-    pr = vlib.proof_stage(prop)
+    pr = vlib.proof_stage(prop, tier=tier)
     log("[%s] proof stage: %d/%d discharged %s" % (prop, pr["discharged"], pr["obligations"], "" if pr["ok"] else pr["log"][-1500:]))
     # ---- build stage
     with vlib.Lock("build.lock"):
@@ -132,6 +132,8 @@ def run_check(spec, prop, tier, seed, t0):
             violations.append((rp, "no-failing-input-found"))
     cov = dict(obligations=pr["obligations"], discharged=pr["discharged"], checker_cmd=pr["checker_cmd"] or "make -C coq",
                trusted_base=vlib.TRUSTED_BASE, theorems=pr["theorems"])
+    if pr.get("coqchk"):
+        cov["coqchk"] = pr["coqchk"]
     extra = {}
     if harness_ok:
         extra = spec.correspondence(prop, tier, rng, workdir, pr, violations)
@@ -786,7 +788,7 @@ class C16(CaseSpec):
 class C14(CaseSpec):
     def assumptions(self):
         return ["macro EXPANSION is rustc's; the model is of the transcriber (the operation list an invocation expands to)",
-                "value expressions are pure integer expressions evaluated by the generator"]
+                "node values, edge targets and edge values are pure integer expressions evaluated by the generator; key expressions are pure or yield the listed key at their FIRST evaluation only (`once`), and one block uses by-value String variables as keys"]
 
     def correspondence(self, prop, tier, rng, workdir, pr, violations):
         t1 = time.time()
